@@ -34,13 +34,33 @@ CAUGHT = {
  'C16-m2': ('./check C16', 'foreign-epoch-effect (patch ported to HEAD: patch_head.diff)'),
  'C17-m1': ('./check C17', 'see checks/hotrestart_NOTES.md (scenario added after this seed escaped)'),
  'C17-m2': ('./check C17', 'not-healed'),
+ 'C03-m1': ('./check C03', 'peer attaches while the creator holds buffers (AllocStep dimension added after this seed escaped): peer derives a different layout'),
+ 'C03-m2': ('./check C03', 'layout mismatch between creator and peer'),
+ 'C18-m1': ('./check C18', 'window/callback-argument: buffer growth with a consumed prefix'),
+ 'C18-m2': ('./check C18', 'writers/mutex: send loop enters write while a fast-path sender owns the connection'),
+ 'C01r2-m1': ('./check C09', 'callback-mode ledger after close: free-list size > cap (double recycle by two overlapping pendingData.clear); statement-granular interleavings, added after this seed escaped'),
+ 'C01r2-m2': ('./check C20', 'panic / ledger in statement-granular sticky interleavings (probabilistic: about one seed in two in the quick tier, thorough tier 10x the runs)'),
+ 'C04r2-m1': ('./check C04', 'torn element'),
+ 'C04r2-m2': ('./check C04', 'unobserved-pop / torn with non-power-of-two capacities (also C03: queues not cross-wired)'),
+ 'C05r2-m1': ('./check C05', 'staged flush-retry/consumer-drains-and-idles scenario (added after this seed escaped): stranded'),
+ 'C05r2-m2': ('./check C05', 'stranded: flag left set by an empty polling round'),
+ 'C06r2-m1': ('./check C06', 'writer-len'),
+ 'C06r2-m2': ('./check C06', 'bytes: fallback payload aliases the reused read buffer (also C07, C13)'),
+ 'C07r2-m1': ('./check C07', 'eos-overtakes-data: Blocking read waiter with a gate in front of the select (added after this seed escaped)'),
+ 'C07r2-m2': ('./check C07', 'isolation: recycled payload scribble (added after this seed escaped) shows the message was assembled after its slices were recycled'),
+ 'C09r2-m1': ('./check C09', 'leak with three-buffer messages (added after this seed escaped)'),
+ 'C09r2-m2': ('./check C09', 'callback-mode ledger after close (added after this seed escaped): 1 buffer still allocated'),
+ 'C10r2-m1': (None, 'pending'),
+ 'C10r2-m2': ('./check C07', 'event: handleEvents consumed 0 of 12 (also C13); C10 itself does not judge partial consumption'),
+ 'C20r2-m1': ('./check C20', 'invented / ledger in statement-granular interleavings (added after this seed escaped)'),
+ 'C20r2-m2': ('./check C20', 'not-serial'),
  'C19-m1': ('./check C19', 'late-stream probe (added after this seed escaped)'),
  'C19-m2': ('./check C07', 'order across transports; C19 itself does not stage the fallback/refill interleaving'),
  'C20-m1': ('./check C20', 'stranded (fine-grained random interleavings, added after this seed escaped)'),
  'C20-m2': ('./check C20', 'offered-after-close'),
 }
 for out in sorted(glob.glob('/tmp/seed/C*-out/m*')):
-    pid = re.search(r'/(C\d+)-out/(m\d)', out)
+    pid = re.search(r'/(C\d+(?:r2)?)-out/(m\d)', out)
     name = '%s-%s' % (pid.group(1), pid.group(2))
     if not os.path.exists(os.path.join(out, 'patch.diff')):
         continue
